@@ -43,7 +43,7 @@ def plan(tier, seed):
             cases.append(dict(key=f"{mk}/{bc}/u", mesh=mk, fk=fk, bc=bc, cont="u", seed=seed, tier=tier, cost=10 if "20" in mk or "10" in mk else 3))
     # (plane-strain Q1-P0 with few cells has a spurious pressure mode: singular constrained pencil, not driven)
     for mk, fk in (("hexahedron", "3d"),):
-        for bc in ("clamped-face", "partial"):
+        for bc in ("clamped-face", "partial", "clamped-face+p"):  # (+p: pressure unknowns of some cells prescribed as well)
             cases.append(dict(key=f"{mk}/{bc}/u,p,J", mesh=mk, fk=fk, bc=bc, cont="mixed", seed=seed, tier=tier, cost=6))
     # bodies made of several items on one field: every ordered selection of 1..3 out of three items
     # (multiplier 0.25 / none / multiplier 3), so that nothing may leak from one item of the list to the next
@@ -147,11 +147,11 @@ def run(case):
         motions += [(f"cube{i}", Q, np.array([0.3, -0.2, 0.5])) for i, Q in enumerate(zoo.cube_rotations()[1:6])] + [("generic", zoo.generic_rotations(seed, 1)[0], np.array([1.0, 2.0, 3.0]))]
     else:
         motions += [("rot90", zoo.rot2(np.pi / 2), np.array([0.3, -0.2])), ("generic", zoo.rot2(0.7), np.array([1.0, 2.0]))]
-    if bc not in ("none", "clamped-face"):
+    if bc not in ("none", "clamped-face", "clamped-face+p"):
         motions = motions[:1]  # coordinate-plane boundary conditions are not rigid-motion invariant
     # the same body in other length units: lambda scales with 1 / s^2 (K ~ s^(d-2), M ~ s^d)
     UNITS = {"mm": 1e-3, "km": 1e3}
-    if bc in ("none", "clamped-face"):  # (the coordinate-plane dictionaries select by un-scaled coordinates)
+    if bc in ("none", "clamped-face", "clamped-face+p"):  # (the coordinate-plane dictionaries select by un-scaled coordinates)
         motions += [(u, s_ * np.eye(d), np.zeros(d)) for u, s_ in UNITS.items()]
     for (E, nu), rho in itertools.product(((1.0, 0.3), (210.0, 0.0), (5.0, 0.45)), (1.0, 7.8)):
         for mlab, Q, t in (motions if (E, nu, rho) == (1.0, 0.3, 1.0) else motions[:1]):
@@ -173,6 +173,9 @@ def run(case):
                 bounds = {}
             elif bc == "clamped-face":
                 bounds = {"fix": fem.Boundary(f0, mask=np.isclose(P[:, 0], P[:, 0].min()))}
+            elif bc == "clamped-face+p":
+                f1 = field.fields[1]
+                bounds = {"fix": fem.Boundary(f0, mask=np.isclose(P[:, 0], P[:, 0].min())), "p": fem.Boundary(f1, mask=np.arange(len(f1.values)) % 2 == 1)}
             elif bc == "symmetry":
                 bounds = fem.dof.symmetry(f0, axes=(True, True, False), x=float(P[:, 0].min()), y=float(P[:, 1].min()))
             else:
